@@ -111,19 +111,21 @@ type exec struct {
 	hashApps []*hashApp // applications of the injective Hash abstraction
 
 	// scheduler
-	gors          []*gor
-	cur           *gor
-	killed        bool
-	preempt       int // remaining preemptions (interleaving mode)
-	mstates       map[*value]*mstate
-	fresh         int
-	uidBytes      map[*Term][]*Term
-	symClock      bool
-	randCounter   uint64
-	jsonUseNumber bool
-	readers       map[*value]value
-	decoders      map[*value]*jsonDecoder
-	lastClock     *Term
+	gors            []*gor
+	cur             *gor
+	killed          bool
+	preempt         int // remaining preemptions (interleaving mode)
+	mstates         map[*value]*mstate
+	fresh           int
+	uidBytes        map[*Term][]*Term
+	symClock        bool
+	randCounter     uint64
+	realFormatting  bool
+	bypassIntrinsic *ssa.Function
+	jsonUseNumber   bool
+	readers         map[*value]value
+	decoders        map[*value]*jsonDecoder
+	lastClock       *Term
 
 	globals map[*ssa.Global]*value
 	inited  map[*ssa.Package]bool
